@@ -82,13 +82,13 @@ def data? : Sexp → Option (List (Name × Value))
     | _ => none
   | _ => none
 
-/-- what a text template can express; a text file outside this is not covered by the model
-(its includes would be performed by a pipeline without match filter) -/
+/-- what a text template can express (no syntax for elements and match templates; an include
+carries the template's own class and the empty fallback) -/
 partial def textOk : List Node → Bool
   | [] => true
   | n :: ns =>
     (match n with
-     | .text _ | .var _ => true
+     | .text _ | .var _ | .call _ => true
      | .cond _ b | .loop _ _ b | .defn _ b => textOk b
      | .include _ cls hasFb fb _ => cls == .text && hasFb && fb.isEmpty
      | _ => false) && textOk ns
